@@ -80,6 +80,8 @@ func checkDynamicNullability(c *core.Ctx) {
 }
 
 func runC08(c *core.Ctx) {
+	c.Rule("OVL", "overload candidates are tried independently")
+	checkOverloadLoops(c, "OVL")
 	ids := typeIDs(c.Prog)
 	c.Rule("UNI3", "function bodies construct values of the declared result type")
 	c.Rule("UNI7", "aggregate Trigger constructs the declared OutputType")
